@@ -1,33 +1,41 @@
-import QModel.Calc
+import QModel.CalcAlias
 import QModel.MachineIO
 /-! `mc <style> <log 0/1> <ens> A … R …` — the M-machine with the calculator layer; per trial the snapshot plus
-    `e=<reported energy> le=<reference energy> ev=<evaluations so far> br=<0/1>` -/
+    `e=<reported energy> le=<reference energy> ev=<evaluations so far> br=<0/1> fk=<checksum of get_forces()>` -/
 namespace MC
 open MM
 
-def styleOf : String → Option CStyle
-  | "stateless" => some .stateless | "caching" => some .caching | "peratom" => some .perAtom | _ => none
+/-- (caching style, result arrays written in place) -/
+def styleOf : String → Option (CStyle × Bool)
+  | "stateless" => some (.stateless, false) | "caching" => some (.caching, false)
+  | "peratom" => some (.perAtom, false)
+  | "inplace" => some (.caching, true)      -- caches like `caching`; its result ARRAYS live in one buffer
+  | _ => none
 
-def runCTrials (sim : Sim) (log : Bool) : List TrialIn → CState → List String → List String
+def runCTrials (sim : Sim) (log inplace : Bool) : List TrialIn → AState → List String → List String
   | [], _, acc => acc.reverse
-  | t :: ts, cs, acc =>
+  | t :: ts, s, acc =>
     match sim.table.find? (fun e => e.name = t.name) with
     | none => (("unknown-move " ++ t.name) :: acc).reverse
     | some e =>
-      let m0 := applyPresel { cs.m with inp := t.inp } t.pre
-      let (o, cs1) := ctrial sim e.tree t.verdict { cs with m := m0 }
-      let (rep, cs2) := if log then logRead cs1 else ((getEnergy cs1.cal cs1.m.atoms).1, cs1)
-      let line := snapshot o cs2.m ++
-        s!" e={rep} le={cs2.lastE} ev={cs2.cal.evals} br={if cs2.cal.broken then 1 else 0}"
-      runCTrials sim log ts cs2 (line :: acc)
+      let m0 := applyPresel { s.cs.m with inp := t.inp } t.pre
+      let (o, s1) := atrial true inplace sim e.tree t.verdict { s with cs := { s.cs with m := m0 } }
+      let rep := (getEnergy s1.cs.cal s1.cs.m.atoms).1
+      let s2 := if log then alogRead inplace s1 else s1
+      let fk := match aForces inplace s2 with
+        | some f => toString (forceSum f)
+        | none => "none"
+      let line := snapshot o s2.cs.m ++
+        s!" e={rep} le={s2.cs.lastE} ev={s2.cs.cal.evals} br={if s2.cs.cal.broken then 1 else 0} fk={fk}"
+      runCTrials sim log inplace ts s2 (line :: acc)
 
 def handle : List String → String
   | "mc" :: style :: log :: ens :: rest =>
     match styleOf style, parseCase ens rest with
-    | some st, some (sim, s0, trials) =>
-      let cs0 : CState := { m := s0, cal := { style := st } }
-      let cs1 := cvalidate sim cs0
-      " | ".intercalate (runCTrials sim (log = "1") trials cs1 [])
+    | some (st, inplace), some (sim, s0, trials) =>
+      let s : AState := { cs := { m := s0, cal := { style := st } }, x := {} }
+      let s1 := avalidate true inplace sim s
+      " | ".intercalate (runCTrials sim (log = "1") inplace trials s1 [])
     | _, _ => "bad-op"
   | _ => "bad-op"
 
